@@ -213,7 +213,8 @@ class PathCtx(object):
         ob = Obligation(oid, self.path_label(), st, solver, time.time() - t0, model=model, info=info, line=line,
                         smt2=(smt2 if st != 'discharged' else None))
         self.oblig.append(ob)
-        self.assume(g)
+        if st == 'discharged':
+            self.assume(g)
         return ob
 
     def cover(self, cid, extra=True):
